@@ -143,9 +143,10 @@ theorem fr_incrFresh {E : Externals} {dbk : SqlVal} {raw : Bool} (hnn : dbk ≠ 
       obtain ⟨t1, c⟩ := sc
       obtain ⟨hi1, hrows⟩ := store_inv hst hi
       have hcfg : t1.cfg = t.cfg := (store_keep hst).2.1
-      have hw := Fr.write (raw := raw) hnn t1 hi1 now c
-      rw [hrows, hcfg] at hw
-      have hsel : t1.selKey dbk raw = upd := by rw [selKey_congr hrows]; exact hupd
+      have hw := Fr.write (raw := raw) hnn (t1.regCreated c.file) (regCreated_inv c.file hi1) now c
+      rw [regCreated_rows, regCreated_cfg, hrows, hcfg] at hw
+      have hsel : (t1.regCreated c.file).selKey dbk raw = upd := by
+        rw [selKey_congr ((regCreated_rows t1 c.file).trans hrows)]; exact hupd
       cases upd with
       | none => exact hw.2 hsel
       | some r0 => exact hw.1 r0 hsel
